@@ -1,15 +1,13 @@
 """Not-applicable list and engine list (claimed properties carry their own META in rules/cXX.py; see tools/gen_manifest.py)."""
 
 NOT_APPLICABLE = {
-    'C22': 'byte-identity of copies over arbitrary source trees, part boundaries and destination states is a round-trip property of runtime '
-           'values and file-system state; not decidable from the shape of the code (the semaphore it uses is covered by C40)',
     'C37': 'numerical correctness of Scala statistics routines against their mathematical definitions; no static rule in reach bounds floating-point results',
     'C39': 'liveness and mutual exclusion over all interleavings of concurrent driver loops, workers and faults; the per-message safety '
            'obligations it rests on are decided statically under C04/C07/C10, the protocol-level claim is not',
 }
 
 # Properties whose rule module has been reviewed and passes on the unchanged tree; only these are claimed in MANIFEST.json.
-READY = ['C01', 'C02', 'C03', 'C04', 'C05', 'C06', 'C07', 'C08', 'C09', 'C10', 'C11', 'C12', 'C13', 'C14', 'C15', 'C16', 'C17', 'C18', 'C19', 'C20', 'C21', 'C23', 'C24', 'C25', 'C26', 'C27', 'C28', 'C29', 'C30', 'C31', 'C32', 'C33', 'C34', 'C35', 'C36', 'C38', 'C40', 'C41']
+READY = ['C01', 'C02', 'C03', 'C04', 'C05', 'C06', 'C07', 'C08', 'C09', 'C10', 'C11', 'C12', 'C13', 'C14', 'C15', 'C16', 'C17', 'C18', 'C19', 'C20', 'C21', 'C22', 'C23', 'C24', 'C25', 'C26', 'C27', 'C28', 'C29', 'C30', 'C31', 'C32', 'C33', 'C34', 'C35', 'C36', 'C38', 'C40', 'C41']
 
 ENGINES = {
     'source_commits': [],
